@@ -190,6 +190,10 @@ WF_SCENARIOS = {
     'stopSuccess': ('succeedWorkflow', 'stop', 'SUCCESS'),
     'stopError': ('failWorkflow', 'stop', 'ERROR'),
     'stopCancel': ('cancelWorkflow', 'stop', 'CANCELLED'),
+    # a plain resume_workflow (no generated script: monitor only).  On a RUNNING execution it is a no-op; with a
+    # stop committed before / during it, the finished row must stay as the stop left it ("leaves ERROR or
+    # CANCELLED only through an explicit rerun")
+    'resume': (None, 'resume', None),
 }
 WF_INTERFERERS = ['stop:CANCELLED', 'stop:ERROR', 'stop:SUCCESS', 'pause', 'check']
 SCRIPT_MSG = 'script-msg'
@@ -240,6 +244,8 @@ class WfWorld(object):
         script, how, arg = WF_SCENARIOS[scenario]
         if how == 'stop':
             return lambda: w.op('stop_workflow', self.wid, arg, SCRIPT_MSG)
+        if how == 'resume':
+            return lambda: w.op('resume_workflow', self.wid)
         verdict = {None: None, 'error': ('error', 'boom'), 'cancel': ('cancel', None)}[arg]
         oracle = (lambda world, d: verdict) if verdict else None
         for _ in range(12):
@@ -393,15 +399,16 @@ def wf_model_intf(intf, scen_script, solo_row, row0):
     raise ValueError(intf)
 
 
-def wf_monitor(scenario, intf, first, r, solo_row):
+def wf_monitor(scenario, intf, first, r, solo_row, judge_first=True):
     """the property sentences read on the real rows; returns [(what, signature)].
-    first = the interferer committed before the script's first read: that is the sequential
-    composition of two transactions (the business of the transaction-granularity models and
-    their findings), not a race below it: not judged here"""
+    first = the interferer committed before the script's first read, i.e. the sequential composition
+    of the two transactions: judged as well (since repo fix ce9b9520 no sequential composition of
+    these transactions alters a finished row; seeded/C03-r2 - a plain resume reviving a finished
+    execution - shows exactly there)"""
     hits = []
     a = r['after_intf']
     row = r['row']
-    if first:
+    if first and not judge_first:
         return hits
     if a is not None and a[0] == 'PAUSED' and row[0] == 'ERROR' and row[1] == FORCE_FAIL:
         hits.append(('execution PAUSED by the operator while its completion check was in flight is forced '
@@ -448,14 +455,14 @@ def run_wf_cases(ctx, scenarios=None, interferers=None, stream='race-wf', on_vio
             continue
         row0, solo_row = solo['row0'], solo['row']
         try:
-            positions = model_positions(scripts[sname], solo['log']) if scripts else \
+            positions = model_positions(scripts[sname], solo['log']) if (scripts and sname) else \
                 [(e['n'], None) for e in significant(solo['log'])]
         except ValueError as e:
             ctx.disagree(stream, {'scenario': scenario, 'shape': True}, str(e),
                          [(x['kind'], x['sig']) for x in solo['log']])
             positions = [(e['n'], None) for e in significant(solo['log'])]
         # solo correspondence: the model's uninterfered run
-        if drv is not None:
+        if drv is not None and sname:
             m = drv.call('race.run', {'script': sname, 'vars': wf_vars(solo_row),
                                       'row': {'alive': True, 'f': row0}, 'sched': []})
             real = {'row': solo_row, 'writes': norm_writes(writes(solo['log'])), 'aborted': False}
@@ -485,7 +492,7 @@ def run_wf_cases(ctx, scenarios=None, interferers=None, stream='race-wf', on_vio
                 for what, sig in wf_monitor(scenario, intf, n == positions[0][0], r, solo_row):
                     rep = dict(case, kind='race', real=real, after_interferer=r['after_intf'], row0=row0)
                     ctx.violation(what, rep, sig)
-                if drv is None or gap is None:
+                if drv is None or gap is None or not sname:
                     continue
                 m = drv.call('race.run', {
                     'script': sname, 'vars': wf_vars(solo_row),
@@ -1053,13 +1060,17 @@ class JobWorld(object):
         w.tick(3600)
 
     def capture_pass(self):
-        """what _process_store_jobs does up to the commit: read the candidates, capture each"""
-        from mistral.db.v2 import api as db_api
+        """the REAL DefaultScheduler._process_store_jobs of a scheduler instance of its own (threads never
+        started): candidates read and captured in one transaction; what it would then invoke is recorded
+        instead of being invoked and deleted.  Returns [True] if this scheduler would invoke the job."""
+        from oslo_config import cfg
         from mistral.scheduler import default_scheduler as ds
-        from mistral_lib import utils
-        with db_api.transaction():
-            jobs = db_api.get_scheduled_jobs_to_start(utils.utc_now_sec(), None)
-            return [bool(ds.DefaultScheduler._capture_scheduled_job(j)) for j in jobs]
+        s = ds.DefaultScheduler(cfg.CONF.scheduler)
+        invoked = []
+        s._prepare_and_invoke_job = lambda job: invoked.append(job.id)
+        s._delete_scheduled_job = lambda job: None
+        s._process_store_jobs()
+        return [bool(invoked)]
 
     def rows(self):
         from mistral.db.v2 import api as db_api
